@@ -10,6 +10,7 @@ import Sds.Proofs.Bits
 import Sds.Proofs.Tables
 import Sds.Proofs.Round
 import Sds.Proofs.BitsMore
+import Sds.Proofs.GenFns
 
 namespace Sds.C17
 open Sds Outcome
@@ -208,5 +209,25 @@ example : ∃ p, selectPortable .checked 0xF1#64 3 = ok p ∧ selectPdep 0xF1#64
     p < 64 ∧ (0xF1#64 : Word).getLsbD p = true ∧ popcount (0xF1#64 &&& lowSet p) = 3 :=
   select_exact .checked 0xF1#64 3 (by decide)
 example : (1 ≤ 4 ∧ 4 ≤ 64) ∧ (0x1ABC#64 : Word) ≠ 0 := by decide
+
+/-! ### the helpers AS TRANSLATED FROM THE SOURCE on this run
+
+`Generated/BitsFns.lean` is produced by tools/gen_lean.py from the bodies of the nine arithmetic helpers of `bits.rs`
+(expression by expression: `+ - *` in the arithmetic mode, `/` panicking on zero, `<<` dropping the bits shifted out,
+module constants substituted).  The equations below say that what the source says NOW is the model function all the
+theorems above are about; a change to one of these bodies either keeps its equation true or breaks it by name. -/
+theorem helpers_as_translated_from_source (m : Mode) (n v k : Nat) :
+    Generated.gen_words_to_bytes m n = wordsToBytes m n ∧
+    Generated.gen_bytes_to_words m n = bytesToWords m n ∧
+    Generated.gen_round_up_to_word_bytes m n = roundUpToWordBytes m n ∧
+    Generated.gen_words_to_bits m n = wordsToBits m n ∧
+    Generated.gen_bits_to_words m n = bitsToWords m n ∧
+    Generated.gen_round_up_to_word_bits m n = roundUpToWordBits m n ∧
+    Generated.gen_div_round_up m v k = divRoundUp m v k ∧
+    Generated.gen_split_offset m n = ok (splitOffset n) ∧
+    Generated.gen_bit_offset m v k = bitOffset m v k :=
+  ⟨GenFns.words_to_bytes_eq m n, GenFns.bytes_to_words_eq m n, GenFns.round_up_to_word_bytes_eq m n,
+   GenFns.words_to_bits_eq m n, GenFns.bits_to_words_eq m n, GenFns.round_up_to_word_bits_eq m n,
+   GenFns.div_round_up_eq m v k, GenFns.split_offset_eq m n, GenFns.bit_offset_eq m v k⟩
 
 end Sds.C17
